@@ -463,4 +463,77 @@ theorem derivs_spec (w : List Letter) : ∀ (r : Rx) (v : List Letter),
 theorem matches_correct (r : Rx) (w : List Letter) : r.matches w = true ↔ L r w := by
   simp only [Rx.matches, nullable_iff, derivs_spec, List.append_nil]
 
+theorem L_star_empty (w : List Letter) : L (.star .empty) w ↔ w = [] := by
+  simp only [L]
+  constructor
+  · rintro ⟨ws, rfl, h⟩
+    cases ws with
+    | nil => rfl
+    | cons u ws => exact (h u (by simp)).elim
+  · rintro rfl; exact ⟨[], rfl, by simp⟩
+
+theorem L_star_eps (w : List Letter) : L (.star .eps) w ↔ w = [] := by
+  simp only [L]
+  constructor
+  · rintro ⟨ws, rfl, h⟩
+    induction ws with
+    | nil => rfl
+    | cons u ws ih =>
+      have hu : u = [] := h u (by simp)
+      subst hu
+      simpa using ih (fun v hv => h v (List.mem_cons_of_mem _ hv))
+  · rintro rfl; exact ⟨[], rfl, by simp⟩
+
+theorem L_star_star (a : Rx) (w : List Letter) : L (.star (.star a)) w ↔ L (.star a) w := by
+  constructor
+  · rintro ⟨ws, rfl, h⟩
+    induction ws with
+    | nil => exact ⟨[], rfl, by simp⟩
+    | cons u ws ih =>
+      obtain ⟨us, rfl, hus⟩ := h u (by simp)
+      obtain ⟨vs, hvs, hv⟩ := ih (fun v hv => h v (List.mem_cons_of_mem _ hv))
+      refine ⟨us ++ vs, by simp [hvs], ?_⟩
+      intro x hx
+      rcases List.mem_append.mp hx with hx | hx
+      · exact hus x hx
+      · exact hv x hx
+  · intro h
+    exact ⟨[w], by simp, by simpa using h⟩
+
+theorem L_mkStar (a : Rx) (w : List Letter) : L (mkStar a) w ↔ L (.star a) w := by
+  cases a with
+  | empty => simp only [mkStar, L_star_empty]; simp [L]
+  | eps => simp only [mkStar, L_star_eps]; simp [L]
+  | star x => simp only [mkStar]; exact (L_star_star x w).symm
+  | single S => rfl
+  | cat x y => rfl
+  | alt x y => rfl
+  | and x y => rfl
+  | compl x => rfl
+
+/-- The bottom-up normalisation preserves the language. -/
+theorem L_norm (r : Rx) : ∀ w : List Letter, L (norm r) w ↔ L r w := by
+  induction r with
+  | empty => intro w; rfl
+  | eps => intro w; rfl
+  | single S =>
+    intro w
+    simp only [norm]
+    split
+    · next h =>
+      simp only [L, false_iff]
+      rintro ⟨a, _, ha⟩
+      simp only [lmem, List.any_eq_true, Bool.and_eq_true, beq_iff_eq] at ha
+      obtain ⟨p, hp, _, hbit⟩ := ha
+      have := List.all_eq_true.mp h p hp
+      simp only [beq_iff_eq] at this
+      rw [this] at hbit
+      simp at hbit
+    · rfl
+  | cat a b iha ihb => intro w; simp only [norm, L_mkCat]; simp only [L, iha, ihb]
+  | alt a b iha ihb => intro w; simp only [norm, L_mkAlt, iha, ihb, L]
+  | and a b iha ihb => intro w; simp only [norm, L_mkAnd]; simp only [L, iha, ihb]
+  | star a iha => intro w; simp only [norm, L_mkStar]; simp only [L, iha]
+  | compl a iha => intro w; simp only [norm, L, iha]
+
 end MidnightZK.C19
